@@ -222,7 +222,7 @@ def _cmp_real(ctx, fn, toks, val, scale):
     return msg
 
 
-def dominant_trace(ctx, n, k0, dt, phase, use_object):
+def dominant_trace(ctx, n, k0, dt, phase, use_object, drawn=None):
     """C15.f (kind S): stationary on-grid sinusoid, harmonic k0 in [2, 3/4 Nyquist]: the trace equals its frequency over the middle half"""
     import eqsig
     from eqsig import stockwell as sw
@@ -231,7 +231,12 @@ def dominant_trace(ctx, n, k0, dt, phase, use_object):
     inputs = {'n': n, 'harmonic': k0, 'dt': dt, 'phase': phase, 'values': x}
     ctx.hist('dominant-frequency trace')
     ctx.count_case(('trace', n, k0, dt, phase), True)
-    if use_object:
+    if use_object == 'drawn':
+        # round 7: a FRESH object whose time-frequency image (or a spectrum at a time, ...) was drawn before the trace is asked for
+        asig = eqsig.AccSignal(x, dt)
+        inputs[DRAWN] = plot_history(ctx, asig, calls=drawn)
+        f = np.asarray(sw.get_max_stockwell_freq(asig))
+    elif use_object:
         asig = ctx.aged(eqsig.AccSignal, x, dt)
         f = np.asarray(sw.get_max_stockwell_freq(asig))
     else:
@@ -320,14 +325,18 @@ def run(ctx):
         if (quick or n in hs) and len(ks) > 6:
             ks = sorted(set([2, ks[-1]] + rng.sample(ks, 4)))
         for k0 in ks:
-            dominant_trace(ctx, n, k0, rng.choice([0.01, 0.02, 0.5, 1.0]), rng.uniform(0, 2 * math.pi), use_object=(k0 % 3 == 0))
+            dominant_trace(ctx, n, k0, rng.choice([0.01, 0.02, 0.5, 1.0]), rng.uniform(0, 2 * math.pi), use_object=(True if k0 % 3 == 0 else 'drawn' if k0 % 3 == 1 else False))
     ctx.flush()
 
 
 def replay_case(ctx, payload):
     inp = payload['inputs']
     sub = type(ctx)(ctx.prop, ctx.tier, ctx.seed)
-    if 'harmonic' in inp:
+    if DRAWN in inp and 'harmonic' in inp:
+        dominant_trace(sub, inp['n'], inp['harmonic'], inp['dt'], inp['phase'], 'drawn', drawn=inp[DRAWN])
+    elif DRAWN in inp:
+        drawn_case(sub, np.array(inp['values'], dtype=float), inp['dt'], inp.get('class', 'AccSignal'), inp.get('kind', 'replay'), drawn=inp[DRAWN])
+    elif 'harmonic' in inp:
         dominant_trace(sub, inp['n'], inp['harmonic'], inp['dt'], inp['phase'], False)
     else:
         one(sub, 'replay', np.array(inp['values']), with_model=False)
@@ -526,4 +535,134 @@ _run_main_rest2 = run
 def run(ctx):
     _run_main_rest2(ctx)
     corr_rest2(ctx, parts=('stockwell',))
+    ctx.flush()
+
+
+# ---- round-7 lesson (hx_r7c): objects that were DRAWN before they are analysed ---------------------------------------------------------------
+
+import _precalls as _PRE  # noqa: E402
+
+DRAWN = 'drawn before the trace was read (calls in order; <axes> = unittest.mock.MagicMock())'
+
+
+def _plot_objects(asig):
+    """placeholder -> object, for the arguments of the drawing calls that are not plain option values"""
+    import eqsig
+    from unittest import mock
+    from eqsig import stockwell as sw
+    v = np.asarray(asig.values, dtype=float)
+    n = len(v)
+    return {'<axes>': mock.MagicMock(), '<signal>': asig,
+            '<other signal>': type(asig)(0.5 * v[::-1] + 0.25 * np.cos(1.7 * np.arange(n)), asig.dt),
+            '<|transform(values)|>': np.abs(sw.transform(v)),
+            '<|transform(values interpolated to dt/2)|>': np.abs(sw.transform(np.interp(np.arange(2 * n) / 2, np.arange(n), v)))}
+
+
+def _plot_entries(asig, obj):
+    """the plotting helpers of eqsig.stockwell with every option value (documented parameter order of the pinned tree).
+    [(weight, function, first parameter, [(required, value)...], [(optional, default, [non-default values])...])]"""
+    from eqsig import stockwell as sw
+    n, dt = len(asig.values), asig.dt
+    times = [0.0, 0.1 * n * dt, 0.3 * n * dt, 0.45 * n * dt]
+    other = obj['<other signal>']
+    tab = [(5, 'plot_stock', [('asig', asig)], [('norm_x', False, [True]), ('norm_all', False, [True]), ('interp', False, [True]), ('cmap', None, ['plasma', 'gnuplot2']),
+                                                ('vmin', None, [0.0]), ('vmax', None, [1.0, 0.5])]),
+           (2, 'plot_fas_at_time', [('asig', asig), ('time', _PRE.rng_free_choice(times))], []),
+           (2, 'plot_windowed_fas_at_time', [('asig', asig), ('time', _PRE.rng_free_choice(times))], [('time_window', 3, [1, 0.5 * n * dt, 10 * dt])]),
+           (1, 'plot_tifq_vals', [('tifq_vals', obj['<|transform(values)|>']), ('dt', dt)], [('norm_all', False, [True]), ('norm_x', False, [True]), ('cmap', None, ['plasma'])]),
+           (1, 'plot_tifq_vals', [('tifq_vals', obj['<|transform(values interpolated to dt/2)|>']), ('dt', dt / 2)], [('norm_all', False, [True])])]
+    if n <= 64:     # 2 .. 5 rotated combinations, each with a transform of its own
+        tab.append((1, 'plot_max_freq_azimuth', [('asig1', asig), ('asig2', other)], [('max_f', None, [0.25 / dt, 1.0]), ('norm', False, [True]), ('r_steps', 90, [2, 3, 5])]))
+        tab.append((1, 'plot_max_freq_azimuth', [('asig1', other), ('asig2', asig)], [('max_f', None, [0.25 / dt]), ('norm', False, [True]), ('r_steps', 90, [2, 3])]))
+    return [(w, getattr(sw, nm), 'splot' if nm != 'plot_tifq_vals' else 'subplot', req, opts) for w, nm, req, opts in tab if getattr(sw, nm, None) is not None]
+
+
+def plot_history(ctx, asig, max_calls=3, calls=None):
+    """draw the object one to three times (plot_stock, plot_fas_at_time, plot_windowed_fas_at_time, plot_tifq_vals, plot_max_freq_azimuth; option
+    values and the way they are handed over drawn at random, about a fifth of the calls with every option at its default; now and then the
+    readers of the stored transform afterwards); results and exceptions of these calls are ignored (plot_max_freq_azimuth without max_f raises
+    on the unchanged library with this NumPy, np.clip(a, None, None)).  Returns the calls made as [{'f', 'args', 'kwargs'}] with placeholders
+    for the objects; `calls` replays such a list.  Drawing is a pure read of the record: whatever is read from the object afterwards is what a
+    fresh object gives."""
+    import warnings
+    from eqsig import stockwell as sw
+    obj = _plot_objects(asig)
+    back = {id(o): k for k, o in obj.items()}
+
+    def ph(x):
+        return back.get(id(x), x)
+
+    def unph(x):
+        return obj.get(x, x) if isinstance(x, str) else x
+    if calls is not None:
+        for c in calls:
+            try:
+                with warnings.catch_warnings():
+                    warnings.simplefilter('ignore')
+                    with np.errstate(all='ignore'):
+                        getattr(sw, c['f'])(*[unph(a) for a in c['args']], **{k: unph(a) for k, a in c['kwargs'].items()})
+            except Exception:  # noqa
+                pass
+        return calls
+    rng = _PRE.rng_of(ctx)
+    entries = _plot_entries(asig, obj)
+    out = []
+    for _ in range(rng.choice([1, 1, 2, 3][:max_calls + 1])):
+        wgt, f, first, req, opts = rng.choices(entries, weights=[e[0] for e in entries])[0]
+        d, style, a, k = _PRE.one_call(rng, f, first, req, opts, obj['<axes>'], same_object=True, p_default=0.2)
+        ctx.hist('drawn-before/%s/%s%s' % (f.__name__, style, ' (raises)' if ' -> ' in d else ''))
+        out.append({'f': f.__name__, 'args': [ph(x) for x in a], 'kwargs': {n_: ph(x) for n_, x in k.items()}})
+        if rng.random() < 0.2:       # the readers of the stored transform (they need one: AttributeError otherwise, ignored)
+            for g in ('get_stockwell_freqs', 'get_stockwell_times'):
+                try:
+                    getattr(sw, g)(asig)
+                    out.append({'f': g, 'args': ['<signal>'], 'kwargs': {}})
+                except Exception:  # noqa
+                    pass
+    return out
+
+
+def drawn_case(ctx, v, dt, cls_name, kind, drawn=None):
+    import eqsig
+    from eqsig import stockwell as sw
+    from _hxb_common import same, val
+    cls = getattr(eqsig, cls_name)
+    n = len(v)
+    fresh = val(call_impl(sw.get_max_stockwell_freq, cls(v, dt)))
+    want = val(call_impl(sw.get_max_tifq_vals_freq, sw.transform(v), dt))
+    asig = cls(v, dt)
+    inputs = {'values': v, 'dt': dt, 'class': cls_name, 'kind': kind}
+    inputs[DRAWN] = plot_history(ctx, asig, calls=drawn)
+    f1 = val(call_impl(sw.get_max_stockwell_freq, asig))
+    f2 = val(call_impl(sw.get_max_stockwell_freq, asig))
+    N = 2 * (n // 2)
+    ctx.oracle('C15.f get_max_stockwell_freq of an object that was drawn before == the trace of a fresh object == get_max_tifq_vals_freq(transform(values), dt): '
+               'one value per sample of the (even-truncated) record', fresh is not None and same(f1, fresh) and same(f1, want) and np.shape(f1) == (N,), inputs,
+               detail={'drawn object': None if f1 is None else {'len': len(f1), 'head': np.asarray(f1)[:6]}, 'fresh object': None if fresh is None else {'len': len(fresh), 'head': np.asarray(fresh)[:6]}})
+    ctx.oracle('C15.f get_max_stockwell_freq of an object that was drawn before: a second read gives the same series', same(f1, f2), inputs)
+    ctx.oracle('C15 drawing an object and reading its trace leave record and time step unchanged', same(asig.values, v) and asig.dt == dt and asig.npts == n, inputs)
+
+
+def extras_drawn(ctx):
+    """C15.f object level: get_max_stockwell_freq(signal) == get_max_tifq_vals_freq(transform(values), dt) == the trace of a fresh object, also
+    when the object was drawn before (any plotting helper, any option value); drawing leaves record and time step unchanged; a second read
+    gives the same series.  (Nothing is demanded after the record of an object is replaced: the stored transform is not invalidated by
+    reset_values on the pinned tree -- outside C15.)"""
+    rng = ctx.rng
+    for it in range(40 if ctx.tier == 'quick' else 400):
+        n = rng.randint(4, 90) if it % 8 else rng.choice([128, 200, 255])
+        kind = rng.choice(['noise', 'dyadic', 'offset', 'harmonic'])
+        v = np.asarray(record(rng, n, kind), dtype=float)
+        dt = rng.choice([0.01, 0.02, 0.5, 1.0, 0.005])
+        ctx.hist('drawn-before/record/' + kind)
+        ctx.count_case(('drawn', v.tobytes(), dt), len(set(v.tolist())) > 1)
+        drawn_case(ctx, v, dt, 'AccSignal' if it % 3 else 'Signal', kind)
+
+
+_run_main_dr = run
+
+
+def run(ctx):
+    _run_main_dr(ctx)
+    extras_drawn(ctx)
     ctx.flush()
